@@ -51,6 +51,11 @@ def main():
     except core.HarnessError as e:
         sys.stderr.write('HARNESS ERROR: %s\n' % e)
         return 2
+    except RuntimeError as e:
+        if str(e).startswith('HARNESS ERROR'):
+            sys.stderr.write('%s\n' % e)
+            return 2
+        raise
 
 
 if __name__ == '__main__':
